@@ -404,6 +404,28 @@ impl Wake for WakeFlag {
     }
 }
 
+/// The waker handed to one particular poll. The contract of `Future::poll` obliges a future to
+/// arrange for the waker of its MOST RECENT poll to be woken; wakers of earlier polls may be
+/// ignored by an executor, and this one does ignore them (a library that parks on a stale
+/// waker - e.g. a stream that is handed from one task to another - is then never woken).
+struct PollWaker {
+    flag: Arc<WakeFlag>,
+    generation: u64,
+    current: Arc<AtomicU64>,
+    strict: bool,
+}
+
+impl Wake for PollWaker {
+    fn wake(self: Arc<Self>) {
+        self.wake_by_ref();
+    }
+    fn wake_by_ref(self: &Arc<Self>) {
+        if !self.strict || self.generation == self.current.load(Ordering::SeqCst) {
+            self.flag.wake_by_ref();
+        }
+    }
+}
+
 #[derive(Clone, Copy, Debug, PartialEq, Eq)]
 pub enum TaskStatus {
     Live,
@@ -417,6 +439,8 @@ struct Task {
     flag: Arc<WakeFlag>,
     polls: u64,
     status: TaskStatus,
+    /// Number of the latest poll: only its waker counts (see `PollWaker`).
+    generation: Arc<AtomicU64>,
 }
 
 struct CmdFuture(Rc<Shared>);
@@ -644,7 +668,7 @@ impl World {
 
     fn spawn(&mut self, tref: TaskRef, fut: Pin<Box<dyn Future<Output = ()>>>) {
         let flag = Arc::new(WakeFlag { woken: AtomicBool::new(true), wakes: AtomicU64::new(0) });
-        self.tasks.insert(tref, Task { fut: Some(fut), flag, polls: 0, status: TaskStatus::Live });
+        self.tasks.insert(tref, Task { fut: Some(fut), flag, polls: 0, status: TaskStatus::Live, generation: Arc::new(AtomicU64::new(0)) });
     }
 
     pub fn status(&self, t: TaskRef) -> Option<TaskStatus> {
@@ -728,7 +752,8 @@ impl World {
         shared.push(Ev::PollBegin { task: tref, woken });
         poster::verif::set_now(Some(self.clock));
         ACTIVE.with(|a| *a.borrow_mut() = Some(shared.clone()));
-        let waker = Waker::from(task.flag.clone());
+        let generation = task.generation.fetch_add(1, Ordering::SeqCst) + 1;
+        let waker = Waker::from(Arc::new(PollWaker { flag: task.flag.clone(), generation, current: task.generation.clone(), strict: self.cfg.strict_wakers }));
         let mut cx = TaskCx::from_waker(&waker);
         let fut = task.fut.as_mut().expect("live task has a future");
         let res = catch_unwind(AssertUnwindSafe(|| fut.as_mut().poll(&mut cx)));
@@ -994,7 +1019,9 @@ impl World {
                     return;
                 }
                 let mark = match step {
-                    Step::Reconnect { elapsed, .. } => Some(*elapsed),
+                    // u64::MAX: the Context is simply given a new transport, no disconnection is
+                    // recorded (what the shipped library offers: it never records one itself)
+                    Step::Reconnect { elapsed, .. } if *elapsed != u64::MAX => Some(*elapsed),
                     _ => None,
                 };
                 let (conn, reader, writer) = self.new_connection();
